@@ -278,6 +278,64 @@ def sc_c18(env, spec, v, cfg):
                     env.check(raw is not None, what + ": the reference in the buffer is set")
                     if raw is not None:
                         env.check(env.eq(raw._offset, other._xobject._offset), what + ": the reference in the buffer denotes the assigned object (same offset)")
+        elif st[0] == "ref_release" and refs:
+            # two holders share one object through their reference fields; ONE of them lets go (None / another object).
+            # Whatever move() of the shared object does afterwards (the library refuses it), the attribute of the holder
+            # that still refers to it keeps showing the buffer's data (M11-C18: one holder's release unpins the object)
+            fn, rt = refs[st[1] % len(refs)]
+            pn = HY.pyname(spec, fn)
+            ov = strip_refs(rt, second_value(rt, stepno))
+            other = HY.make_h(rt, ov, _buffer=cbuf)
+            v2 = strip_refs(spec, second_value(spec, stepno + 2))
+            ok, h2 = _guard(env, what + ": a second holder in the same buffer", lambda: HY.make_h(spec, v2, _buffer=cbuf))
+            if not ok:
+                continue
+            ok1, _ = _guard(env, what + f": binding the object to reference field {fn} of the first holder", setattr, h, pn, other)
+            ok2, _ = _guard(env, what + f": binding the object to reference field {fn} of the second holder", setattr, h2, pn, other)
+            if st[2:] and st[2] == "rebind":
+                other3 = HY.make_h(rt, strip_refs(rt, second_value(rt, stepno + 5)), _buffer=cbuf)
+                ok3, _ = _guard(env, what + ": re-binding the first holder's field to another object", setattr, h, pn, other3)
+                if ok3:
+                    cur = dict(cur, **{fn: HY_full(rt, strip_refs(rt, second_value(rt, stepno + 5)))})
+            else:
+                ok3, _ = _guard(env, what + ": None to the first holder's field", setattr, h, pn, None)
+                if ok3:
+                    cur = dict(cur, **{fn: None})
+            if ok1 and ok2 and ok3:
+                try:
+                    other.move(_buffer=env.fresh(4096, tag=f"r{stepno}"))
+                except BaseException as ex:
+                    if not isinstance(ex, Exception):
+                        raise
+                cur2 = dict(HY_full(spec, v2), **{fn: HY_full(rt, ov)})
+                ol = [(p, lt, x) for p, lt, x in HY.hleaves(rt, HY_full(rt, ov)) if lt[0] == "scalar"]
+                if ol:
+                    p2, lt2, x2 = ol[0]
+                    nv = other_scalar(lt2, x2, 1)
+                    _guard(env, what + ": a write through the second holder's attribute", HY.hset, spec, h2, (fn,) + p2, nv)
+                    cur2 = HY.vset(cur2, (fn,) + p2, nv)
+                mirror_ok(env, spec, h2, HY.expected(spec, cur2), f"for the holder that still shares the object, after step {stepno} ({st[0]})")
+        elif st[0] == "ref_part_release" and refs and nested:
+            # a reference field bound to a part nested in the object, then released: the part stays a part (not movable)
+            pair = [(fn, rt, nf) for fn, rt in refs for nf, nt in nested if nt == rt]
+            if not pair:
+                continue
+            fn, rt, nf = pair[st[1] % len(pair)]
+            part = getattr(h, HY.pyname(spec, nf))
+            ok1, _ = _guard(env, what + f": binding nested part {nf} to reference field {fn}", setattr, h, HY.pyname(spec, fn), part)
+            ok3, _ = _guard(env, what + f": None to reference field {fn}", setattr, h, HY.pyname(spec, fn), None)
+            if ok3:
+                cur = dict(cur, **{fn: None})
+            elif ok1:
+                cur = dict(cur, **{fn: cur[nf]})
+            raised = False
+            try:
+                getattr(h, HY.pyname(spec, nf)).move(_buffer=env.fresh(4096, tag=f"q{stepno}"))
+            except BaseException as ex:
+                if not isinstance(ex, Exception):
+                    raise
+                raised = True
+            env.check(raised, what + f": moving the object nested in field {nf} is refused (also after a reference to it was released)")
         elif st[0] == "copy":
             where = st[1]
             m = env.mark()
@@ -388,11 +446,26 @@ def _count(x):
 wmode.SCENARIOS["c18"] = sc_c18
 
 
+def _zero_like(ft, x):
+    if ft[0] == "scalar":
+        return 0.0 if ft[1].startswith("Float") else 0
+    if ft[0] == "string":
+        return ""
+    if ft[0] == "href":
+        return None
+    return [_zero_like(("array", ft[1], ft[2][1:], None) if len(ft[2]) > 1 else ft[1], y) for y in x]
+
+
 def with_defaults(spec, v, mode):
     """values coinciding with the declared defaults (mode 'all') or only in nested classes ('nested')"""
     out = dict(v)
     for fn, ft, d in spec[2]:
-        if HY.is_h(ft):
+        if HY.is_h(ft) and mode in ("nested0", "zero"):
+            # every field of the nested object at the default of the NESTED class: declared, or zero / empty
+            out[fn] = with_defaults(ft, v[fn], "zero")
+        elif mode == "zero":
+            out[fn] = HY.dval(d) if d is not None else _zero_like(ft, v[fn])
+        elif HY.is_h(ft):
             out[fn] = with_defaults(ft, v[fn], "all" if mode == "nested" else mode)
         elif d is not None and mode == "all":
             out[fn] = HY.dval(d)
